@@ -44,7 +44,8 @@ func checkC18(r *Run) {
 		"FileEnt.Read/Write honour the return-range contract 0 <= n <= len(p)",
 		"lock pairing on the FileEnt mutex on every path",
 		"lockset discipline: every access to FileEnt.nref/children/Info/Data happens under that node's lock — violated at the sites listed as known findings (data races between sessions sharing the tree), every other site is checked",
-		"no explicit panic in package ramfs")
+		"no explicit panic in package ramfs",
+		"no append extends a shortened view of another object's slice field (handles never write into each other's parent chains)")
 	r.NotDecided = append(r.NotDecided, "bytes read = bytes most recently written; listing contents; walk resolution; nref = number of links (model equivalence)", "race freedom beyond the lockset discipline")
 	// bounds
 	n := 0
@@ -148,6 +149,51 @@ func checkC18(r *Run) {
 	r.Floor("lockset", nAcc, 20, "guarded field accesses / helper calls in ramfs")
 	// the server-global counter
 	c18GlobalCounter(r)
+	c18AliasingAppend(r)
+}
+
+// append(x[:k], …) on a sub-slice of a slice that belongs to another handle/node writes into the
+// shared backing array whenever cap allows: the source's elements are overwritten.
+func c18AliasingAppend(r *Run) {
+	p := r.P
+	n := 0
+	for _, fn := range p.FuncsOfPkg("ramfs") {
+		fa := p.FA(fn)
+		eachInstr(fn, func(in ssa.Instruction) {
+			c, ok := in.(*ssa.Call)
+			if !ok || calleeName(&c.Call) != "builtin append" {
+				return
+			}
+			n++
+			bad := ""
+			for _, alt := range phiAlternatives(c.Call.Args[0], 3) {
+				sl, ok := alt.(*ssa.Slice)
+				if !ok || sl.Max != nil {
+					continue
+				}
+				base := fa.Sym(sl.X)
+				if isFieldSlice(base) && sl.High != nil {
+					bad = base.K
+				}
+				// an append onto a sub-slice of a previous append onto a field sub-slice
+				if inner, ok := sl.X.(*ssa.Call); ok && calleeName(&inner.Call) == "builtin append" {
+					continue
+				}
+			}
+			if nested, ok := c.Call.Args[0].(*ssa.Call); ok && calleeName(&nested.Call) == "builtin append" {
+				for _, alt := range phiAlternatives(nested.Call.Args[0], 3) {
+					if sl, ok := alt.(*ssa.Slice); ok && sl.Max == nil && sl.High != nil {
+						if base := fa.Sym(sl.X); isFieldSlice(base) {
+							bad = base.K
+						}
+					}
+				}
+			}
+			r.Check(bad == "", "no-aliasing-append", fnName(fn)+": append does not extend a sub-slice of another object's slice field", c.Pos(),
+				"append onto a shortened view of "+bad+" writes into that field's backing array when capacity allows: the source handle's elements are overwritten (use a copy or a full slice expression x[:k:k])")
+		})
+	}
+	r.OkTrivial("no-aliasing-append", fmt.Sprintf("ramfs: %d append sites examined", n), token.NoPos)
 }
 
 // fServer.lastpath is written by next() from every session: it must be updated atomically or under a lock.
@@ -174,4 +220,9 @@ func c18GlobalCounter(r *Run) {
 				"the server-wide qid-path counter is incremented without synchronisation by concurrent sessions (data race; duplicate qid paths)")
 		})
 	}
+}
+
+// isFieldSlice: the symbol denotes a slice stored in a struct field (of a heap object or of a by-value receiver/parameter).
+func isFieldSlice(s *Sym) bool {
+	return (s.Op == "ld" && strings.HasPrefix(s.Aux, "F:")) || s.Op == "fld"
 }
